@@ -10,7 +10,7 @@ only="${ONLY:-}"
 for d in seeded/*/; do
   name=$(basename $d)
   [ -f "$d/meta.json" ] || continue
-  [ -n "$only" ] && ! echo "$name" | grep -qE "$only" && continue
+  [ -n "$only" ] && ! echo "$name" | grep -qE -- "$only" && continue
   prop=${name%%-*}
   checks=$(python3 -c "
 import json;m=json.load(open('$d/meta.json'));print(' '.join(sorted(set(['$prop']+m.get('caught_by',[])+list(m.get('checks_run_with_change_applied_to_repo',{}).keys())))))")
